@@ -1,8 +1,10 @@
 """Correspondence for the element-graph core: real ElementList operations vs Hl7.Heap (lean/Hl7/Model/Heap.lean)."""
 import vlib, hist
 
-NAMES = ['PID_3', 'PID_3', 'PID_3', 'PID_8', 'PID_8', 'PID_1', 'NK1_2', 'PID_5', 'PID_5']
-MAXREPS = {'PID_8': 1, 'PID_1': 1}
+# node kinds: S = Segment, F = Field, M = Message, G = Group
+BASE = [('S', 'PID'), ('S', 'PID')]
+EXTRA = [('F', n) for n in ['PID_3', 'PID_3', 'PID_3', 'PID_8', 'PID_8', 'PID_1', 'NK1_2', 'PID_5', 'PID_5']] + \
+        [('M', 'ADT_A01'), ('G', 'ADT_A01_INSURANCE'), ('S', 'IN1'), ('S', 'IN1'), ('S', 'EVN'), ('F', 'IN1_2'), ('G', 'ADT_A01_PROCEDURE'), ('S', 'PR1')]
 ERR = {'ChildNotValid': 'ChildNotValid', 'MaxChildLimitReached': 'MaxChildLimitReached', 'OperationNotAllowed': 'OperationNotAllowed',
        'ValueError': 'crash', 'Crash:IndexError': 'crash', 'Crash:AttributeError': 'crash', 'ChildNotFound': 'ChildNotValid'}
 
@@ -10,24 +12,39 @@ ERR = {'ChildNotValid': 'ChildNotValid', 'MaxChildLimitReached': 'MaxChildLimitR
 def gen(rng, n):
     """a history: node specs + ops in the core vocabulary"""
     plevel = rng.choice([1, 2])
-    nodes = [('PID', plevel, 25), ('PID', plevel, 25)]
-    for nm in NAMES:
-        lvl = plevel if rng.random() < .85 else 3 - plevel
-        ver = 25 if rng.random() < .9 else 24
-        nodes.append((nm, lvl, ver))
+    nodes = [(k, nm, plevel, 25) for k, nm in BASE]
+    for k, nm in EXTRA:
+        lvl = plevel if rng.random() < .88 else 3 - plevel
+        ver = 25 if rng.random() < .92 else 24
+        nodes.append((k, nm, lvl, ver))
+    containers = [i for i, nd in enumerate(nodes) if nd[0] != 'F']
+    kids = [i for i, nd in enumerate(nodes) if nd[0] != 'M']
+    rich = rng.random() < .5
+
+    def par():
+        return rng.randrange(2) if not rich or rng.random() < .4 else rng.choice(containers)
+
+    def kid():
+        return rng.randrange(2, 11) if not rich or rng.random() < .5 else rng.choice(kids)
     ops = []
     for _ in range(n):
-        p = rng.randrange(2)
-        c = rng.randrange(2, len(nodes))
-        k = rng.random()
-        if k < .4:
+        p, c, k = par(), kid(), rng.random()
+        if k < .3:
             ops.append(('A', p, c))
-        elif k < .55:
+        elif k < .42:
             ops.append(('I', p, c, rng.randrange(0, 4)))
-        elif k < .7:
+        elif k < .54:
             ops.append(('R', p, c))
+        elif k < .72:
+            ops.append(('X', p, kid(), c))
+        elif k < .82:
+            ops.append(('S', p, c))
+        elif k < .86:
+            ops.append(('U', c))
+        elif k < .94:
+            ops.append(('T', p, c))
         else:
-            ops.append(('X', p, rng.randrange(2, len(nodes)), c))
+            ops.append(('P', c))
     return {'nodes': nodes, 'ops': ops}
 
 
@@ -35,56 +52,129 @@ def dump(objs):
     ids = {id(o): i for i, o in enumerate(objs)}
     out = []
     for o in objs:
-        kids = ','.join(str(ids.get(id(c), '?')) for c in o.children) if hasattr(o, 'children') and o.classname == 'Segment' else ''
+        cont = o.classname != 'Field'
+        kids = ','.join(str(ids.get(id(c), '?')) for c in o.children) if cont else ''
         par = ids.get(id(o.parent), '?') if o.parent is not None else '-'
         tp = ids.get(id(o.traversal_parent), '?') if o.traversal_parent is not None else '-'
-        out.append('%s/%s/%s' % (kids, par, tp))
+        tidx = ','.join(str(i) for i in sorted(ids.get(id(c), -1) for l in o.children.traversal_indexes.values() for c in l)) if cont else ''
+        out.append('%s/%s/%s/%s' % (kids, par, tp, tidx))
     return ';'.join(out)
+
+
+def make(h):
+    from hl7apy.core import Segment, Field, Message, Group
+    cls = {'S': Segment, 'F': Field, 'M': Message, 'G': Group}
+    objs = [cls[k](nm, version='2.%d' % (ver % 10), validation_level=lvl) for k, nm, lvl, ver in h['nodes']]
+    for o in objs:
+        if o.classname == 'Message':
+            for c in list(o.children.list):     # the MSH segment a Message creates for itself is not a node of the history
+                o.children.remove(c)
+    return objs
+
+
+def maxreps(h, objs):
+    mr = {}
+    for o in objs:
+        if o.classname == 'Field':
+            continue
+        for k, nm, _, _ in h['nodes']:
+            mx = o.repetitions.get(nm, (0, -1))[1]
+            if int(mx) > -1:
+                mr['%s/%s' % (o.name, nm)] = int(mx)
+    return mr
 
 
 def run_real(h):
     """execute on real objects; returns (per-op 'tag dump' list, model op strings with the observed validity flags, invariant violations)"""
-    from hl7apy.core import Segment, Field
     from hl7apy.exceptions import HL7apyException
-    objs = []
-    for nm, lvl, ver in h['nodes']:
-        v = '2.%d' % (ver % 10)
-        if nm == 'PID':
-            objs.append(Segment('PID', version=v, validation_level=lvl))
-        else:
-            objs.append(Field(nm, version=v, validation_level=lvl))
-    out, mops, inv = [], [], []
-    for op in h['ops']:
-        p = objs[op[1]]
+    objs = make(h)
+    h['maxreps'] = maxreps(h, objs)
+    out, mops, inv, tainted = [], [], [], set()
+
+    def validity(p, child):
         try:
-            child = objs[op[-1] if op[0] in ('A', 'R', 'X') else op[2]]
-            try:
-                valid = 1 if p._is_valid_child(child) else 0
-            except HL7apyException:
-                valid = 0
-            if op[0] == 'A':
+            return 1 if p._is_valid_child(child) else 0
+        except HL7apyException:
+            return 0
+    for op in h['ops']:
+        try:
+            k = op[0]
+            if k in ('A', 'I', 'R', 'X', 'S', 'T'):
+                p = objs[op[1]]
+                child = objs[op[3] if k == 'X' else op[2]]
+                valid = validity(p, child)
+            if k == 'A':
                 mops.append('A.%d.%d.%d' % (op[1], op[2], valid))
                 p.children.append(child)
-            elif op[0] == 'I':
+            elif k == 'I':
                 li = min(op[3], len(p.children))
                 mops.append('I.%d.%d.%d.%d' % (op[1], op[2], li, valid))
                 p.children.insert(li, child)
-            elif op[0] == 'R':
+            elif k == 'R':
                 mops.append('R.%d.%d' % (op[1], op[2]))
                 p.children.remove(child)
-            else:
+            elif k == 'X':
                 mops.append('X.%d.%d.%d.%d' % (op[1], op[2], op[3], valid))
+                if objs[op[2]].name != child.name:
+                    tainted.add(id(p))      # replace_child(old, new) with different names: never done by the API (set() looks `old` up by new's name)
                 p.children.replace_child(objs[op[2]], child)
+            elif k == 'S':
+                mops.append('S.%d.%d.%d' % (op[1], op[2], valid))
+                child.parent = p
+            elif k == 'U':
+                mops.append('U.%d' % op[1])
+                objs[op[1]].parent = None
+            elif k == 'T':
+                # the library sets a traversal parent only on an element it has just created (create_element)
+                if child.parent is None and child.traversal_parent is None:
+                    mops.append('T.%d.%d.%d' % (op[1], op[2], valid))
+                    child.traversal_parent = p
+                else:
+                    mops.append('N')
+            elif k == 'P':
+                c = objs[op[1]]
+                tp = c.traversal_parent
+                valid = validity(tp, c) if tp is not None else 1
+                mops.append('P.%d.%d' % (op[1], valid))
+                c.set_parent_to_traversal()
             tag = 'ok'
         except Exception as e:  # noqa
             n = vlib.exc_name(e)
             tag = ERR.get(n, n)
         out.append('%s %s' % (tag, dump(objs)))
-        bad = []
-        for r in objs[:2]:
-            bad += hist.invariants(r)
-        inv.append(bad)
-    return out, mops, inv
+        inv.append(graph_invariants(objs, tainted))
+    return out, mops, inv, h['maxreps']
+
+
+def graph_invariants(objs, tainted=()):
+    """C10 on the low-level graph: listed ⇒ points back, listed once, by one element; the by-name index is the list filtered by name"""
+    bad = []
+    owner = {}
+    for o in objs:
+        if o.classname == 'Field':
+            continue
+        seen = set()
+        for c in o.children.list:
+            if id(c) in seen:
+                bad.append('listed twice under %s: %s' % (o.name, c.name))
+            seen.add(id(c))
+            if c.parent is not o:
+                bad.append('%s listed by %s but parent is %r' % (c.name, o.name, c.parent))
+            if id(c) in owner and owner[id(c)] is not o:
+                bad.append('%s listed by two elements' % c.name)
+            owner[id(c)] = o
+            if c.version != o.version or c.validation_level != o.validation_level:
+                bad.append('%s under %s: version/level differ' % (c.name, o.name))
+        names = []
+        for c in o.children.list:
+            if c.name not in names:
+                names.append(c.name)
+        for nm in (set(list(o.children.indexes.keys()) + names) if id(o) not in tainted else ()):
+            want = [id(c) for c in o.children.list if c.name == nm]
+            got = [id(c) for c in o.children.indexes.get(nm, [])]
+            if want != got:
+                bad.append('by-name index of %s under %s differs from the list' % (nm, o.name))
+    return bad
 
 
 def job(h):
@@ -92,10 +182,53 @@ def job(h):
         return run_real(h)
     except Exception as e:  # noqa
         import traceback
-        return (['HARNESS ' + traceback.format_exc()[-300:]], [], [])
+        return (['HARNESS ' + traceback.format_exc()[-300:]], [], [], {})
 
 
 def model_line(h, mops):
-    nodes = ','.join('%s:%d:%d' % n for n in h['nodes'])
-    mr = ','.join('%s=%d' % kv for kv in MAXREPS.items())
+    nodes = ','.join('%s:%d:%d' % n[1:] for n in h['nodes'])
+    mr = ','.join('%s=%d' % kv for kv in sorted(h.get('maxreps', {}).items())) or '-'
     return 'HEAP %s %s %s' % (nodes, mr, ';'.join(mops))
+
+
+def compare(seed, nhist, nops=12):
+    """run `nhist` random histories on the real code and on the model; returns (stats, disagreements, invariant violations)"""
+    import random
+    rng = random.Random(seed)
+    hs = [gen(rng, rng.randrange(2, nops + 1)) for _ in range(nhist)]
+    res = vlib.pmap(job, hs)
+    lines = []
+    for h, (out, mops, inv, mr) in zip(hs, res):
+        h['maxreps'] = mr
+        lines.append(model_line(h, mops))
+    mod = vlib.run_driver(lines)
+    dis, bad, stats = [], [], {'histories': nhist, 'ops': 0, 'tags': {}, 'kinds': {}}
+    for h, (out, mops, inv, mr), m, line in zip(hs, res, mod, lines):
+        if out and out[0].startswith('HARNESS'):
+            dis.append({'history': h, 'harness_error': out[0]})
+            continue
+        mo = m.split('|')
+        for i, o in enumerate(out):
+            stats['ops'] += 1
+            stats['tags'][o.split(' ')[0]] = stats['tags'].get(o.split(' ')[0], 0) + 1
+            stats['kinds'][h['ops'][i][0]] = stats['kinds'].get(h['ops'][i][0], 0) + 1
+        if mo != out:
+            k = next((i for i in range(min(len(mo), len(out))) if mo[i] != out[i]), min(len(mo), len(out)))
+            dis.append({'history': h, 'line': line, 'step': k, 'op': mops[k] if k < len(mops) else None,
+                        'impl': out[k] if k < len(out) else None, 'model': mo[k] if k < len(mo) else None})
+        for i, b in enumerate(inv):
+            if b:
+                bad.append({'history': h, 'step': i, 'op': mops[i] if i < len(mops) else None, 'violations': b})
+                break
+    return stats, dis, bad
+
+
+if __name__ == '__main__':
+    import sys, json
+    st, dis, bad = compare(int(sys.argv[1]), int(sys.argv[2]))
+    print(json.dumps(st))
+    print(len(dis), 'disagreements', len(bad), 'invariant violations')
+    for d in dis[:4]:
+        print(json.dumps({k: v for k, v in d.items() if k != 'history'})[:900])
+    for d in bad[:4]:
+        print(json.dumps({k: v for k, v in d.items() if k != 'history'})[:600], d['history']['ops'][:d['step'] + 1])
